@@ -313,7 +313,7 @@ func init() {
 		o := []Oracle{oracleC11{}}
 		ctlO := AlphaOpts{RespKinds: []string{"ok"}, CtxOps: []string{"pause", "start", "kill"}, Updates: []CtxUpdate{updTotalUp, updTotalInf, updTimeout2, updFreq2}}
 		runs := []RunSpec{
-			{Name: "life-events", Sc: withFunds(scLife(paramSet("0.1", "0.001"), []Template{tRep2, tInf, tPoor}, ctlO, d, b, m), 40, 1), Oracles: o},
+			{Name: "life-events", Sc: withFunds(scLife(paramSet("0.1", "0.001"), []Template{tRep2, tInf, tPoor}, ctlO, d-1, b, m), 40, 1), Oracles: o},
 			{Name: "frequency-boundaries", Sc: withFunds(scLife(paramSet("0.1", "0.001"), []Template{tHuge, tMax, tBig, tOneTot}, AlphaOpts{CtxOps: []string{"pause", "start"}}, 5, 4, 2), 40, 5), Oracles: o},
 		}
 		runs = append(runs, runsOf(lifeRuns(tier), o, MonFlags{})...)
@@ -559,6 +559,9 @@ func init() {
 		var runs []RunSpec
 		for _, r := range runsOf(lifeRuns(tier), o, MonFlags{}) {
 			r.Sc.Depth--
+			if r.Name == "life-restart" {
+				r.Sc.Depth -= 2 // every transition is executed several times here (second instance, map orders)
+			}
 			r.DetCheck = true
 			runs = append(runs, r)
 		}
